@@ -149,7 +149,13 @@ def finish(pid, tier, seed, level, rule, assumptions, results, t0, required_reac
                 mine.append(v)
             else:
                 others[v["prop"] + ":" + v["mech"]] += 1
-        inconclusive.extend(r.get("inconclusive", []))
+        for m in r.get("inconclusive", []):
+            jb = r.get("job", {})
+            inconclusive.append("%s [job kind=%s seed=%s hashseed=%s]" % (m, jb.get("kind"), jb.get("seed"), jb.get("hashseed")))
+    soft = [m for r in results for m in r.get("soft_inconclusive", [])]
+    nsoft = int(counters.get("cases_skipped_controller_bypassed", 0))
+    if nsoft and (nsoft > 5 or nsoft > 0.001 * max(evaluations, 1)):
+        inconclusive.append("%d cases skipped because the controller's wall-clock safety valve fired: %s" % (nsoft, soft[:2]))
     for key in required_reach:
         if not (reach.get(key, 0) or counters.get(key, 0)):
             inconclusive.append("deciding monitor never reached: %s == 0" % key)
